@@ -39,6 +39,24 @@ var (
 	// interrupted.
 	Interrupted = errors.New(InterruptedMessage)
 
+	// StackOverflowMessage is the string value of StackOverflow.
+	StackOverflowMessage = "RangeError: maximum call stack size exceeded"
+
+	// StackOverflow is returned by Exec if the script's calls nest
+	// deeper than MaxCallStackSize.
+	StackOverflow = errors.New(StackOverflowMessage)
+
+	// MaxCallStackSize is the maximum depth of function calls in
+	// a script (zero or less: no limit).
+	//
+	// A script that recurses through a built-in (a property
+	// getter, Function.prototype.call, forEach, a sort comparator,
+	// ...) nests Go frames, and unwinding those frames (after an
+	// interrupt, say) takes time that is quadratic in their number:
+	// without a limit, such a script keeps Exec busy for seconds
+	// or minutes after its deadline has passed.
+	MaxCallStackSize = 1000
+
 	// IgnoreExit will prevent the Goja function "exit" from
 	// terminating the process. Being able to halt the process
 	// from Goja is useful for some tests and utilities.  Maybe.
@@ -242,6 +260,9 @@ func (i *Interpreter) Exec(ctx context.Context, bs match.Bindings, props core.St
 	}
 
 	o := goja.New()
+	if 0 < MaxCallStackSize {
+		o.SetMaxCallStackSize(MaxCallStackSize)
+	}
 
 	o.Set("_", env)
 
@@ -418,6 +439,9 @@ func (i *Interpreter) Exec(ctx context.Context, bs match.Bindings, props core.St
 		if _, is := err.(*goja.InterruptedError); is {
 			return nil, Interrupted
 		}
+		if _, is := err.(*goja.StackOverflowError); is {
+			return nil, StackOverflow
+		}
 		// The text of a script's exception comes from script
 		// code (the thrown value's toString), which can throw
 		// or be interrupted in turn: get the text now, while
@@ -435,7 +459,11 @@ func (i *Interpreter) Exec(ctx context.Context, bs match.Bindings, props core.St
 	if err = func() (err error) {
 		defer func() {
 			if r := recover(); r != nil {
-				err = fmt.Errorf("%v", r)
+				if _, is := r.(*goja.StackOverflowError); is {
+					err = StackOverflow
+				} else {
+					err = fmt.Errorf("%v", r)
+				}
 			}
 		}()
 		x = v.Export()
